@@ -431,6 +431,40 @@ Proof.
   destruct (r1 _ _ ref_final q Hq) as [_ Hin]. rewrite HC in Hin. rewrite Hs. exact Hin.
 Qed.
 
+(* the groups, concatenated, are the observed proteins: each exactly once *)
+Lemma concat_filter_nonempty {A} (l : list (list A)) : concat (filter nonempty l) = concat l.
+Proof. induction l as [|x l IH]; simpl; [reflexivity|]. destruct x; simpl; rewrite IH; reflexivity. Qed.
+
+Lemma NoDup_concat_map {A B} (f : A -> list B) (l : list A) :
+  NoDup l -> (forall o, In o l -> NoDup (f o)) ->
+  (forall o o' y, In o l -> In o' l -> In y (f o) -> In y (f o') -> o = o') ->
+  NoDup (concat (map f l)).
+Proof.
+  induction l as [|a l IH]; intros Hnd Hf Hd; simpl; [constructor|].
+  inversion Hnd as [|? ? Hni Hnd']; subst. apply nodup_app.
+  - apply Hf. left. reflexivity.
+  - apply IH; [exact Hnd' | intros o Ho; apply Hf; right; exact Ho|].
+    intros o o' y Ho Ho'. apply Hd; right; assumption.
+  - intros y Hy Hy'. apply in_concat in Hy'. destruct Hy' as [g [Hg Hyg]]. apply in_map_iff in Hg.
+    destruct Hg as [o [<- Ho]]. assert (a = o) by (apply (Hd a o y); [left; reflexivity | right; exact Ho | exact Hy | exact Hyg]).
+    subst. contradiction.
+Qed.
+
+Lemma subset_concat_NoDup : NoDup (concat (subset_grouping m)).
+Proof.
+  rewrite subset_grouping_eq, concat_filter_nonempty.
+  apply NoDup_concat_map; [apply prots_NoDup | apply (r5 _ _ ref_final)|].
+  intros o o' y Ho Ho' Hy Hy'.
+  destruct (r3 _ _ ref_final o y Ho Hy) as [L _]. destruct (r3 _ _ ref_final o' y Ho' Hy') as [L' _]. congruence.
+Qed.
+
+Lemma subset_concat_In x : In x (concat (subset_grouping m)) <-> In x prots.
+Proof.
+  rewrite in_concat. split.
+  - intros [g [Hg Hx]]. eapply subset_only_observed; eassumption.
+  - intros Hx. destruct (subset_covers x Hx) as [g [Hg Hxg]]. exists g. split; assumption.
+Qed.
+
 (* ---- C03: the number of groups is the number of distinct inclusion-maximal peptide sets:
         leaders' sets are maximal, pairwise incomparable, and dominate every protein's set ---- *)
 Lemma leader_in_prots g l tl : In g (subset_grouping m) -> g = l :: tl -> In l prots.
